@@ -5,6 +5,7 @@ same-element atom transpositions (used by C05 and C20).
 and per row (e.g. "coincident with atom 0 of the same row"), so this module builds the arrays
 itself and then constructs the real Molecule / Electronic_Structure exactly like `sp.build`.
 """
+import contextlib
 import copy
 import itertools
 
@@ -217,3 +218,37 @@ def run_md(engine, mols, params, steps, dt=0.5, temp=0.0, velocities=None, pad_e
     finally:
         os.chdir(cwd)
         MD.rm(wd)
+
+
+# ----------------------------------------------------------------------------- uninitialised memory
+
+
+@contextlib.contextmanager
+def uninitialised(answer="zero"):
+    """The harness owns the content of `torch.empty` / `torch.empty_like` tensors created by Python-level
+    callers: it is unspecified by torch, so every value is a legal answer of the environment.  `zero` is the
+    benign answer (runs become deterministic), `nan` is the adversarial one (any read of a never-written
+    element poisons the result), None leaves torch alone."""
+    if answer is None:
+        yield
+        return
+    fill = {"zero": 0.0, "nan": float("nan")}[answer]
+    e, el = torch.empty, torch.empty_like
+
+    def empty(*a, **k):
+        t = e(*a, **k)
+        if t.is_floating_point():
+            t.fill_(fill)
+        return t
+
+    def empty_like(*a, **k):
+        t = el(*a, **k)
+        if t.is_floating_point():
+            t.fill_(fill)
+        return t
+
+    torch.empty, torch.empty_like = empty, empty_like
+    try:
+        yield
+    finally:
+        torch.empty, torch.empty_like = e, el
